@@ -36,9 +36,10 @@ class Err(Exception):
 
 
 class FlightDriver:
-    def __init__(self):
+    def __init__(self, method=False):
         self.loop = None
         self.clock = None
+        self.method = method      # the cached coroutine function is a method of a holder instance
 
     def reset(self, init):
         from haiway import cache
@@ -53,8 +54,7 @@ class FlightDriver:
         self.tasks = {}
         drv = self
 
-        @cache(limit=limit, expiration=float(expn) if expn else None)
-        async def fn(*args, **kwargs):
+        async def body(*args, **kwargs):
             rec = dict(args=args, st="running", canc=False, gate=loop.create_future(), obj=None,
                        task=asyncio.current_task())
             drv.invs.append(rec)
@@ -72,7 +72,21 @@ class FlightDriver:
             rec["obj"] = Err(n)
             raise rec["obj"]
 
-        self.fn = fn
+        deco = cache(limit=limit, expiration=float(expn) if expn else None)
+        if self.method:
+            class Holder:
+                @deco
+                async def m(self_, *args, **kwargs):
+                    return await body(*args, **kwargs)
+
+            self.holder = Holder()
+            self.fn = self.holder.m
+        else:
+            @deco
+            async def fn(*args, **kwargs):
+                return await body(*args, **kwargs)
+
+            self.fn = fn
 
     async def _caller(self, c, key):
         rec = self.cl[c]
@@ -166,7 +180,7 @@ def gen_trace(rnd, nops=40):
     """random interleaving of 4 callers over 3 keys: begin / finish / cancel a waiting caller / run the loop / advance the
     clock, recorded from the real async cache"""
     limit, expn = rnd.choice([1, 2, 3]), rnd.choice([0, 2, 3])
-    d = FlightDriver()
+    d = FlightDriver(method=rnd.random() < 0.5)      # a cached function or a cached method
     d.reset(dict(limit=limit, expn=expn, cl=[0] * 4))
     tr = [dict(ev="Init", init=dict(limit=limit, expn=expn))]
     rdy, cpend = set(), set()
@@ -217,6 +231,9 @@ def run(rep, work, tier, seed):
                                  Bug="cancel_propagates"), invariants=INVS),
                    ["NeverCancelsInvocation", "Delivers"])
     leg_r(rep, work, SPEC, f"conf_{tier}", cfg_text(conf, invariants=INVS), FlightDriver)
+    # the same for a cached async METHOD (its own code path in the library), on a smaller configuration in the quick tier
+    mconf = dict(conf, NCallers=2) if tier == "quick" else conf
+    leg_r(rep, work, SPEC, f"conf_method_{tier}", cfg_text(mconf, invariants=INVS), lambda: FlightDriver(method=True))
     # leg T: longer random interleavings (4 callers, 3 keys, ~40 operations) validated by a trace module generated from
     # CacheFlight.tla
     rnd = random.Random(seed * 23 + 11)
